@@ -279,170 +279,83 @@ theorem lexOK_of_tree [DecidableEq D] (fs : FS D) (ht : fs.TreeLike) (p : P) (d 
 
 /-! ### the bracket over a file system -/
 
-theorem enterF_of_lexOK [DecidableEq D] (fs : FS D) (dir : P) (d1 : D) (hl : lexOK fs dir = true) (hr : resolveAbs fs dir = some d1) :
+theorem enterF_eq (fs : FS D) (dir : P) (d1 : D) (hr : resolveAbs fs dir = some d1) :
     enterF fs dir = some ⟨d1, some dir⟩ := by
-  have : resolveAbs fs (normAbs dir) = some d1 := by
-    have := of_decide_eq_true hl
-    rw [this, hr]
-  simp [enterF, this]
+  simp [enterF, hr]
+
+/-- where `abspath` is harmless the old bracket entered the same directory as the new one -/
+theorem oldEnterF_eq_of_lexOK [DecidableEq D] (fs : FS D) (dir : P) (hl : lexOK fs dir = true) :
+    oldEnterF fs dir = enterF fs dir := by
+  have := of_decide_eq_true hl
+  simp [oldEnterF, enterF, this]
+
+theorem newBracket_enter : (newBracket : Bracket D).enter = enterF := rfl
+theorem newBracket_onFail (s : StF D) (dir : P) : (newBracket : Bracket D).onFail s dir = s := rfl
 
 mutual
 theorem runItemF_spec [DecidableEq D] (fs : FS D) : ∀ (i : Item) (s : StF D),
-    (runItemF fs i s).st.cwd = s.cwd ∧ ((runItemF fs i s).ok = true → (runItemF fs i s).st = s) ∧
-    (goodItemF fs s.cwd i = true →
-      (runItemF fs i s).st = s ∧ (runItemF fs i s).trace <+: specItemF fs s.cwd i ∧
-      ((runItemF fs i s).ok = true → (runItemF fs i s).trace = specItemF fs s.cwd i) ∧
-      (runItemF fs i s).ok = noFailItem i)
-  | .path rel, s => by simp [runItemF, specItemF, noFailItem]
-  | .fail, s => by simp [runItemF, specItemF, noFailItem]
+    (runItemF fs i s).st = s ∧ (runItemF fs i s).trace <+: specItemF fs s.cwd i ∧
+    ((runItemF fs i s).ok = true → (runItemF fs i s).trace = specItemF fs s.cwd i) ∧
+    (runItemF fs i s).ok = (noFailItem i && existItemF fs s.cwd i)
+  | .path rel, s => by simp [runItemF, runItemG, specItemF, noFailItem, existItemF]
+  | .fail, s => by simp [runItemF, runItemG, specItemF, noFailItem, existItemF]
   | .listFile ref rels, s => by
-    simp only [runItemF, specItemF, goodItemF, noFailItem, trueDir]
+    simp only [runItemF, runItemG, specItemF, existItemF, noFailItem, trueDir, newBracket_enter, newBracket_onFail]
     cases h1 : resolveAbs fs (dirname (absIn fs s.cwd ref)) with
     | none => simp
     | some d1 =>
-      simp only []
-      cases he : enterF fs (dirname (absIn fs s.cwd ref)) with
-      | none =>
-        refine ⟨by simp [leaked], by simp, ?_⟩
-        intro hg
-        simp only [Bool.and_eq_true] at hg
-        rw [enterF_of_lexOK fs _ d1 hg.1.1 h1] at he
-        cases he
-      | some s1 =>
-        simp only []
-        refine ⟨?_, ?_, ?_⟩
-        · split <;> (try split) <;> rfl
-        · intro _; split <;> (try split) <;> rfl
-        · intro hg
-          simp only [Bool.and_eq_true, decide_eq_true_eq] at hg
-          obtain ⟨⟨hl1, hsame⟩, hl2⟩ := hg
-          have hsame := of_decide_eq_true hsame
-          rw [enterF_of_lexOK fs _ d1 hl1 h1] at he
-          cases he
-          simp only [hsame, ↓reduceIte, enterF_of_lexOK fs _ d1 hl2 hsame]
-          simp
+      simp only [enterF_eq fs _ d1 h1]
+      by_cases h2 : resolveAbs fs (dirname (absIn fs d1 ref)) = some d1
+      · simp [h2, enterF_eq fs _ d1 h2]
+      · simp [h2]
   | .sub ref items, s => by
-    simp only [runItemF, specItemF, goodItemF, noFailItem, trueDir]
+    simp only [runItemF, runItemG, specItemF, existItemF, noFailItem, trueDir, newBracket_enter, newBracket_onFail]
     cases h1 : resolveAbs fs (dirname (absIn fs s.cwd ref)) with
     | none => simp
     | some d1 =>
-      simp only []
-      cases he : enterF fs (dirname (absIn fs s.cwd ref)) with
-      | none =>
-        refine ⟨by simp [leaked], by simp, ?_⟩
-        intro hg
-        simp only [Bool.and_eq_true] at hg
-        rw [enterF_of_lexOK fs _ d1 hg.1 h1] at he
-        cases he
-      | some s1 =>
-        simp only []
-        refine ⟨trivial, fun _ => trivial, ?_⟩
-        intro hg
-        simp only [Bool.and_eq_true] at hg
-        rw [enterF_of_lexOK fs _ d1 hg.1 h1] at he
-        cases he
-        have ih := (runItemsF_spec fs items ⟨d1, some (dirname (absIn fs s.cwd ref))⟩).2.2 hg.2
-        refine ⟨trivial, ?_, ?_, ih.2.2.2⟩
-        · exact List.prefix_cons_inj _ |>.mpr ih.2.1
-        · intro hok
-          rw [ih.2.2.1 hok]
+      simp only [enterF_eq fs _ d1 h1]
+      have ih := runItemsF_spec fs items ⟨d1, some (dirname (absIn fs s.cwd ref))⟩
+      refine ⟨trivial, ?_, ?_, ih.2.2.2⟩
+      · exact List.prefix_cons_inj _ |>.mpr ih.2.1
+      · intro hok
+        rw [ih.2.2.1 hok]
   | .subObj ref rem isDir items, s => by
-    simp only [runItemF, specItemF, goodItemF, noFailItem]
+    simp only [runItemF, runItemG, specItemF, existItemF, noFailItem, newBracket_enter, newBracket_onFail]
     cases h1 : resolveAbs fs (objDir ref rem isDir) with
     | none => simp
     | some d1 =>
-      simp only []
-      cases he : enterF fs (objDir ref rem isDir) with
-      | none =>
-        refine ⟨by simp [leaked], by simp, ?_⟩
-        intro hg
-        simp only [Bool.and_eq_true] at hg
-        rw [enterF_of_lexOK fs _ d1 hg.1 h1] at he
-        cases he
-      | some s1 =>
-        simp only []
-        refine ⟨trivial, fun _ => trivial, ?_⟩
-        intro hg
-        simp only [Bool.and_eq_true] at hg
-        rw [enterF_of_lexOK fs _ d1 hg.1 h1] at he
-        cases he
-        have ih := (runItemsF_spec fs items ⟨d1, some (objDir ref rem isDir)⟩).2.2 hg.2
-        refine ⟨trivial, ?_, ?_, ih.2.2.2⟩
-        · exact List.prefix_cons_inj _ |>.mpr ih.2.1
-        · intro hok
-          rw [ih.2.2.1 hok]
+      simp only [enterF_eq fs _ d1 h1]
+      have ih := runItemsF_spec fs items ⟨d1, some (objDir ref rem isDir)⟩
+      refine ⟨trivial, ?_, ?_, ih.2.2.2⟩
+      · exact List.prefix_cons_inj _ |>.mpr ih.2.1
+      · intro hok
+        rw [ih.2.2.1 hok]
 theorem runItemsF_spec [DecidableEq D] (fs : FS D) : ∀ (l : List Item) (s : StF D),
-    (runItemsF fs l s).st.cwd = s.cwd ∧ ((runItemsF fs l s).ok = true → (runItemsF fs l s).st = s) ∧
-    (goodItemsF fs s.cwd l = true →
-      (runItemsF fs l s).st = s ∧ (runItemsF fs l s).trace <+: specItemsF fs s.cwd l ∧
-      ((runItemsF fs l s).ok = true → (runItemsF fs l s).trace = specItemsF fs s.cwd l) ∧
-      (runItemsF fs l s).ok = noFailItems l)
-  | [], s => by simp [runItemsF, specItemsF, noFailItems]
+    (runItemsF fs l s).st = s ∧ (runItemsF fs l s).trace <+: specItemsF fs s.cwd l ∧
+    ((runItemsF fs l s).ok = true → (runItemsF fs l s).trace = specItemsF fs s.cwd l) ∧
+    (runItemsF fs l s).ok = (noFailItems l && existItemsF fs s.cwd l)
+  | [], s => by simp [runItemsF, runItemsG, specItemsF, noFailItems, existItemsF]
   | i :: rest, s => by
     have h1 := runItemF_spec fs i s
-    simp only [runItemsF, specItemsF, goodItemsF, noFailItems]
-    cases hok : (runItemF fs i s).ok
+    have h2 := runItemsF_spec fs rest s
+    simp only [runItemF, runItemsF] at h1 h2
+    simp only [runItemsF, runItemsG, specItemsF, noFailItems, existItemsF]
+    cases hok : (runItemG newBracket fs i s).ok
     · simp only [Bool.false_eq_true, ↓reduceIte]
-      refine ⟨h1.1, (fun h => by rw [hok] at h; cases h), ?_⟩
-      intro hg
-      simp only [Bool.and_eq_true] at hg
-      have h1g := h1.2.2 hg.1
-      refine ⟨h1g.1, List.IsPrefix.trans h1g.2.1 (List.prefix_append _ _), (fun h => by rw [hok] at h; cases h), ?_⟩
-      rw [hok] at h1g
-      rw [hok, ← h1g.2.2.2]; simp
-    · have hst := h1.2.1 hok
-      have h2 := runItemsF_spec fs rest s
-      simp only [↓reduceIte, hst]
-      refine ⟨h2.1, h2.2.1, ?_⟩
-      intro hg
-      simp only [Bool.and_eq_true] at hg
-      have h1g := h1.2.2 hg.1
-      have h2g := h2.2.2 hg.2
-      refine ⟨h2g.1, ?_, ?_, ?_⟩
-      · rw [h1g.2.2.1 hok]
-        exact (List.prefix_append_right_inj _).mpr h2g.2.1
+      refine ⟨h1.1, List.IsPrefix.trans h1.2.1 (List.prefix_append _ _), (fun h => by rw [hok] at h; cases h), ?_⟩
+      have hb : (noFailItem i && existItemF fs s.cwd i) = false := by rw [← h1.2.2.2, hok]
+      rw [hok]
+      rcases (Bool.and_eq_false_iff.mp hb) with hb | hb <;> simp [hb]
+    · simp only [↓reduceIte, h1.1]
+      refine ⟨h2.1, ?_, ?_, ?_⟩
+      · rw [h1.2.2.1 hok]
+        exact (List.prefix_append_right_inj _).mpr h2.2.1
       · intro h
-        rw [h1g.2.2.1 hok, h2g.2.2.1 h]
-      · rw [h2g.2.2.2, ← h1g.2.2.2, hok]; simp
-end
-
-/-! in a file system without directory links the `abspath` clauses of `goodItemsF` hold by themselves -/
-mutual
-theorem goodItemF_of_tree [DecidableEq D] (fs : FS D) (ht : fs.TreeLike) : ∀ (i : Item) (d : D),
-    existItemF fs d i = true → goodItemF fs d i = true
-  | .path _, _ => by simp [goodItemF]
-  | .fail, _ => by simp [goodItemF]
-  | .listFile ref rels, d => by
-    simp only [existItemF, goodItemF]
-    cases h1 : trueDir fs d ref with
-    | none => simp
-    | some d1 =>
-      simp only [decide_eq_true_eq, Bool.and_eq_true]
-      intro h2
-      exact ⟨⟨lexOK_of_tree fs ht _ d1 h1, h2⟩, lexOK_of_tree fs ht _ d1 h2⟩
-  | .sub ref items, d => by
-    simp only [existItemF, goodItemF]
-    cases h1 : trueDir fs d ref with
-    | none => simp
-    | some d1 =>
-      simp only [Bool.and_eq_true]
-      intro h2
-      exact ⟨lexOK_of_tree fs ht _ d1 h1, goodItemsF_of_tree fs ht items d1 h2⟩
-  | .subObj ref rem isDir items, d => by
-    simp only [existItemF, goodItemF]
-    cases h1 : resolveAbs fs (objDir ref rem isDir) with
-    | none => simp
-    | some d1 =>
-      simp only [Bool.and_eq_true]
-      intro h2
-      exact ⟨lexOK_of_tree fs ht _ d1 h1, goodItemsF_of_tree fs ht items d1 h2⟩
-theorem goodItemsF_of_tree [DecidableEq D] (fs : FS D) (ht : fs.TreeLike) : ∀ (l : List Item) (d : D),
-    existItemsF fs d l = true → goodItemsF fs d l = true
-  | [], _ => by simp [goodItemsF]
-  | i :: rest, d => by
-    simp only [existItemsF, goodItemsF, Bool.and_eq_true]
-    intro h
-    exact ⟨goodItemF_of_tree fs ht i d h.1, goodItemsF_of_tree fs ht rest d h.2⟩
+        rw [h1.2.2.1 hok, h2.2.2.1 h]
+      · have hb : (noFailItem i && existItemF fs s.cwd i) = true := by rw [← h1.2.2.2, hok]
+        have hb' := Bool.and_eq_true_iff.mp hb
+        rw [h2.2.2.2]
+        simp [hb'.1, hb'.2]
 end
 
 end Jap.PathMode
